@@ -21,7 +21,7 @@ from .runner import Result, plan_text
 PROMPT_RE = re.compile(rb"\x1b\[33m\?\x1b\[0m \x1b\[1m(>>|>)\x1b\[0m \x1b\[38;5;8m\xe2\x80\xba\x1b\[0m $")
 CONFIRM_RE = re.compile(rb"\x1b\[32m\xe2\x9c\x94\x1b\[0m \x1b\[1m(>>|>)\x1b\[0m \x1b\[38;5;8m\xc2\xb7\x1b\[0m \x1b\[32m(.*?)\x1b\[0m\r\n", re.S)
 ANSI_RE = re.compile(rb"\x1b\[[0-9;?]*[A-Za-z]")
-TIMEOUT = 20.0
+TIMEOUT = 10.0
 
 
 class ReplError(Exception):
